@@ -301,13 +301,19 @@ func visitInstr(fr *frame, instr ssa.Instruction) continuation {
 			theEx.panicIf(bad, "makeslice: len out of range")
 			theEx.allocCheck(ct)
 			n = theEx.concretize(lt, 0, theEx.allocLimit, "make-len")
-			c = theEx.concretize(ct, n, theEx.allocLimit, "make-cap")
+			// a symbolic capacity is not enumerated: spare capacity of a fresh
+			// slice is unobservable except through cap(); use len.
+			c = n
+			if !isSym(capV) {
+				c = asInt64(capV)
+			}
+			usedIntrinsics["make: symbolic capacity modelled as cap=len"]++
 		} else {
 			n, c = asInt64(lenV), asInt64(capV)
 			if n < 0 || c < n {
 				panic(targetPanic{runtimeErr("makeslice: len out of range")})
 			}
-			if c > theEx.allocLimit {
+			if c > allocViolation {
 				theEx.allocBomb(c)
 			}
 		}
@@ -323,7 +329,7 @@ func visitInstr(fr *frame, instr ssa.Instruction) continuation {
 			rv := fr.get(instr.Reserve)
 			if s, ok := rv.(*Sym); ok {
 				theEx.allocCheck(mkSExtTo64(s.t, true))
-			} else if n := asInt64(rv); n > theEx.allocLimit {
+			} else if n := asInt64(rv); n > allocViolation {
 				theEx.allocBomb(n)
 			}
 		}
